@@ -136,8 +136,9 @@ func LoadWithOverlay(repo string, overlay map[string][]byte) *Prog {
 		Fset:    fset,
 		Overlay: overlay,
 		Tests:   false,
+		// A fixed build configuration, whatever the caller's environment says.
 		Env: append(env, "GOFLAGS=-mod=mod", "GOPROXY=off", "GOSUMDB=off",
-			"GOTOOLCHAIN=local", "GOWORK=off"),
+			"GOTOOLCHAIN=local", "GOWORK=off", "GOEXPERIMENT=", "GOOS=linux", "GOARCH=amd64", "CGO_ENABLED=0"),
 	}
 	pkgs, err := packages.Load(cfg, "./...")
 	if err != nil {
